@@ -3,8 +3,9 @@
 # and regenerates seeded/INDEX.md and meta.json "detected_by". Never touches /repo (tools/trymutant.sh).
 ROOT=$(cd "$(dirname "$0")/.." && pwd); cd $ROOT
 JOBS=${JOBS:-3}
-: > run/matrix.log
-one() { d=$1; k=$(basename $d); p=${k%-*}; res=$(tools/trymutant.sh $d/patch.diff $p | tail -1); echo "$k $p $res" >> run/matrix.log; }
+[ "$FRESH" = 1 ] && : > run/matrix.log
+touch run/matrix.log
+one() { d=$1; k=$(basename $d); p=${k%-*}; grep -q "^$k " run/matrix.log && return; res=$(tools/trymutant.sh $d/patch.diff $p | tail -1); echo "$k $p $res" >> run/matrix.log; }
 export -f one
 ls -d seeded/C*-*/ | xargs -P $JOBS -I{} bash -c 'one {}'
 python3 - <<'PY'
